@@ -19,7 +19,7 @@ def run(chk):
     rng = chk.rng.fork("c09")
     progs = []
     for i in range(n):
-        p = asm_gen.gen_shift_prog(rng) if rng.chance(0.15) else asm_gen.gen_prog(rng, size_static=rng.chance(0.3), collide=rng.chance(0.2), boundary=rng.chance(0.1))
+        p = asm_gen.gen_chain_prog(rng) if rng.chance(0.1) else asm_gen.gen_shift_prog(rng) if rng.chance(0.15) else asm_gen.gen_prog(rng, size_static=rng.chance(0.3), collide=rng.chance(0.2), boundary=rng.chance(0.1))
         progs.append((p, rng.chance(0.5), rng.chance(0.5)))
     icases, mcases = [], []
     for (p, s, m) in progs:
@@ -68,6 +68,21 @@ def run(chk):
             r, mo = res[j], mod[j]
             if (r[0], r[1], r[2], r[3]) != (mo[0], mo[1], mo[2], mo[3]):
                 ndis += 1
+                # failing-input search: every budget 1..16 for this program
+                full = list(range(1, 17))
+                fr = [asm_gen.canon_impl(x) for x in R.impl([(text, b, s, m) for b in full])]
+                hit = None
+                for j1 in range(len(full)):
+                    if fr[j1][0] == "OK":
+                        for j2 in range(j1 + 1, len(full)):
+                            if asm_streams.sig(fr[j2]) != asm_streams.sig(fr[j1]):
+                                hit = (full[j1], full[j2]); break
+                    if hit:
+                        break
+                if hit:
+                    chk.violation("assembles with budget %d but budget %d gives a different outcome" % hit,
+                                  dict(rep, budgets=full, impl=[str(asm_streams.sig(x))[:300] + " it=%s" % x[2] for x in fr]))
+                    break
                 chk.violation("model/implementation correspondence broken at budget %d: impl %s model %s" % (BUDGETS[j], str(r)[:200], str(mo)[:200]),
                               dict(rep, theorems=["C09_monotone", "C09_passes"]), found=False)
                 break
